@@ -3,6 +3,7 @@ pub mod frame;
 pub mod textl;
 pub mod req;
 pub mod ctl;
+pub mod conn;
 use crate::rng::Rng;
 
 pub fn group_salt(group: &str) -> u64 { group.bytes().fold(0xcbf29ce484222325u64, |h, b| (h ^ b as u64).wrapping_mul(0x100000001b3)) }
@@ -19,6 +20,9 @@ pub fn gen(group: &str, rng: &mut Rng, n: usize, out: &mut Vec<String>) {
         "url" => textl::gen_url(rng, n, out),
         "req" => req::gen(rng, n, out),
         "ctl" => ctl::gen(rng, n, out),
+        "conn" => conn::gen(rng, n, out),
+        "faults" => conn::gen_faults(rng, n, out),
+        "msgid" => conn::gen_msgid(rng, n, out),
         _ => panic!("unknown group {}", group),
     }
 }
@@ -28,6 +32,8 @@ pub fn run(lane: &str, args: &[&str]) -> (String, Option<String>) {
         "enc" | "parse" | "int" | "bool" => ber::run(lane, args),
         "frame" => frame::run(lane, args),
         "req" => req::run(lane, args),
+        "conn" => conn::run(lane, args),
+        "msgid" => conn::run_msgid(args),
         "ctl" | "exop" | "cresp" => ctl::run(lane, args),
         "filter" | "esc" | "utf8" | "entry" | "result" | "helpers" | "url" => textl::run(lane, args),
         _ => ("UNKNOWN-LANE".into(), None),
